@@ -692,6 +692,77 @@ def h7(rep, src):
             rep.violation("H7", key + "@key", "the column path is not name ++ [column] (combinators %s on %s)" % (bad, show(r, 30)), where)
 
 
+def h8(rep, src):
+    """Column lookup inside one relation: exactly the field of that name."""
+    rep.rule(
+        "H8",
+        "Schema::field / Schema::index_from_name (relation/schema.rs, behind schema[name] and every column type / constraint lookup) select the field with `f.name() == name` — plain string equality, "
+        "the same relation Schema::new uses to refuse duplicate names",
+        floor=2,
+        necessary="a looser predicate (case-insensitive, prefix, trimmed) makes two fields that Schema::new accepts as different answer to one name: the lookup silently yields the first candidate, "
+        "and its type / UNIQUE flag is attached to another column",
+    )
+    for nm in ("field", "index_from_name"):
+        fs = [f for f in src.find_fns(name=nm, file="relation/schema.rs") if (f.self_ty or "") == "Schema"]
+        if len(fs) != 1:
+            rep.undecidable("H8", "Schema::" + nm, "expected one Schema::%s" % nm, "src/relation/schema.rs")
+            continue
+        f = fs[0]
+        pn = [p["pat"]["name"] for p in f.params if not p.get("self") and p["pat"]["k"] == "ident"]
+        sel = [m for m in find(f.body, "mcall") if m["m"] in ("position", "find", "rposition", "find_map", "filter", "any") and m["args"] and m["args"][0]["k"] == "closure"]
+        key = "Schema::" + nm
+        if len(sel) != 1 or len(pn) != 1:
+            rep.undecidable("H8", key, "expected one position/find over the fields", f.where())
+            continue
+        cl = sel[0]["args"][0]
+        b = cl["body"]
+        while b["k"] == "block" and len(b["stmts"]) == 1 and b["stmts"][0]["k"] == "expr":
+            b = b["stmts"][0]["e"]
+        fv = pat_binds(cl["params"][0]) if cl["params"] else []
+        ok = False
+        if b["k"] == "binary" and b["op"] == "==" and fv:
+            sides = {show(b["lhs"], 0).replace(" ", "").lstrip("*&"), show(b["rhs"], 0).replace(" ", "").lstrip("*&")}
+            ok = sides == {fv[0] + ".name()", pn[0]}
+        rep.instance("H8", key, {"selector": sel[0]["m"], "predicate": show(b, 80), "exact": ok, "over": show(sel[0]["recv"], 40)})
+        if sel[0]["m"] in ("rposition",):
+            rep.violation("H8", key, "the last matching field is taken", f.where())
+        if not ok:
+            rep.violation("H8", key, "fields are matched with `%s`, not with `f.name() == %s`" % (show(b, 80), pn[0]), f.where())
+
+
+def h9(rep, src):
+    """Columns written in an expression are looked up once, by the whole path as written."""
+    rep.rule(
+        "H9",
+        "sql/expr.rs TryIntoExprVisitor::{identifier, compound_identifier}: the column map is consulted by exactly one `self.0.get(&<whole written name>.cloned())`, outside any loop / iterator closure "
+        "(no retry with a shortened path)",
+        floor=2,
+        necessary="retrying with trailing sub-paths turns a refused name (`t2.x` when only t1 has x) into the unique bare match `x`: the reference is silently bound to another relation's column",
+    )
+    for nm in ("identifier", "compound_identifier"):
+        fs = [f for f in src.find_fns(name=nm, file="sql/expr.rs") if "TryIntoExprVisitor" in (f.self_ty or "")]
+        key = "TryIntoExprVisitor::" + nm
+        if len(fs) != 1:
+            rep.undecidable("H9", key, "expected one visitor method, found %d" % len(fs), "src/sql/expr.rs")
+            continue
+        f = fs[0]
+        pn = [p["pat"]["name"] for p in f.params if not p.get("self") and p["pat"]["k"] == "ident"]
+        all_gets = [m for m in walk(f.body) if m["k"] == "mcall" and m["m"] in ("get", "get_key_value", "and_then", "filter", "get_mut") and show(m["recv"], 0).replace(" ", "") == "self.0"]
+        top_gets = [m for m in walk(f.body, into_closures=False) if m["k"] == "mcall" and m["m"] == "get" and show(m["recv"], 0).replace(" ", "") == "self.0"]
+        loops = [n for n in walk(f.body) if n["k"] in ("for", "while", "loop")]
+        arg = None
+        if len(top_gets) == 1 and top_gets[0]["args"]:
+            a = top_gets[0]["args"][0]
+            while a["k"] == "ref":
+                a = a["e"]
+            arg = show(a, 0).replace(" ", "")
+        ok = len(all_gets) == 1 and len(top_gets) == 1 and not loops and len(pn) == 1 and arg == pn[0] + ".cloned()"
+        rep.instance("H9", key, {"lookups": [show(m, 60) for m in all_gets], "argument": arg, "single_whole_path_lookup": ok})
+        if not ok:
+            why = "several lookups / a lookup inside a closure or loop" if (len(all_gets) != 1 or len(top_gets) != 1 or loops) else "the lookup key is `%s`, not the whole written name" % arg
+            rep.violation("H9", key, "%s: %s" % (why, [show(m, 70) for m in all_gets]), f.where())
+
+
 def run(rep):
     rep.explanation = (
         "Static arm-table check of hierarchy.rs (syn AST of the current tree). Decides: the suffix search counts matches with an absorbing `More` and only a single match "
@@ -712,5 +783,7 @@ def run(rep):
     h5(rep, src)
     h6(rep, src)
     h7(rep, src)
+    h8(rep, src)
+    h9(rep, src)
     rep.assume("rustc accepts the tree (the syn facts are parsed from the same files the build uses)")
     rep.assume("BTreeMap in hierarchy.rs is std::collections::BTreeMap (no local item of that name: checked)")
